@@ -153,6 +153,7 @@ fn one_model(cw: &mut CaseWriter, label: &str, m: &Model, rng: &mut Rng) {
     cw.write(json!({
         "op": "fshobst", "label": label, "model": model_value(m),
         "n_occluders": m.collect_occluders().len(),
+        "occluder_ids": match guarded(|| Ok(m.collect_occluders().iter().filter(|o| o.linked_to_id.is_none()).map(|o| o.id.to_string()).collect::<Vec<_>>())) { Outcome::Ok(v) => json!(v), _ => Value::Null },
         "windows": windows,
         "impl": {"fshobst": base_v, "fshobst_with_extra_obstacle": more_v},
     }));
